@@ -19,7 +19,7 @@ TECHNIQUE = ("runtime monitoring: icontract postconditions on the real update me
 RULE = ("seeded samples of 1-500 finite floats (offsets up to 1e9, spreads down to 1e-3, several distributions incl. "
         "constant, two-point, heavy-tailed, sorted, alternating), fed one by one / in random chunks / permuted, and read between feeds (every read-out against the exact statistics of that prefix); 2-4 "
         "correlated series for covariances; long estimate runs beyond a thousand samples, estimates interrupted by Ctrl-C; estimate_from_repeats over (rtol, tol_scale, min_samples, max_samples) "
-        "grids with constant, alternating, drifting and noisy generators; matrix chunks mixing lists and one-shot iterators in one call; distinct by sample spec; non-trivial when n >= 2")
+        "grids with constant, alternating, drifting and noisy generators; matrix chunks mixing lists and one-shot iterators in one call; silent estimates without a stderr; estimates of a decorated function; distinct by sample spec; non-trivial when n >= 2")
 ASSUMPTIONS = [
     "floating-point accuracy relative to the data scale: |mean - exact| <= 16(1+sqrt n) eps max|x|; "
     "|var - exact| <= 32(1+sqrt n) eps (max|x| sigma + eps max|x|^2); covariances likewise with both series' scales "
